@@ -80,6 +80,16 @@ func VC12_SignedRegister() {
 	serial := vsym.BytesN("serial", 2)
 	vsym.Assume(serial[0] != 0)
 	cert := vsym.Cert(signer, serial)
+	if vsym.Bool("earlier.signed.update") {
+		// a history: another signed update (to dbx or db) happened earlier in the process
+		other := efivar.Dbx
+		if v.Name == "dbx" {
+			other = efivar.Db
+		}
+		odb := signature.NewSignatureDatabase()
+		vsym.Assert(odb.Append(signature.CERT_SHA256_GUID, util.EFIGUID{Data1: 7}, vsym.BytesN("earlier.hash", 32)) == nil, "append")
+		vsym.Assert(fs.WriteSignedUpdate(other, odb, signer, cert) == nil, "earlier signed update succeeds")
+	}
 	vsym.Assert(fs.WriteSignedUpdate(v, db, signer, cert) == nil, "signed update succeeds")
 	var got signature.SignatureDatabase
 	vsym.Assert(fs.GetVar(v, &got) == nil, "reading the variable after a signed update succeeds")
